@@ -12,13 +12,19 @@
    round trip; it reduces the property to the attribute filter.  The premise holds outright for
    StrictPolicy (C20_strict) and for every element whose attribute list passes through none of the
    rewriting passes (C20_attrs_stable_plain_elements).
-   Missing: the premise for elements with URL attributes / forced rel, target, crossorigin and
-   sandbox (it needs the net/url stability hypothesis U5 and the rel-token lemmas composed through
-   both runs); carried by the idempotence oracle on every generated case of the stated policy
-   class, StrictPolicy and UGCPolicy. *)
+   REFUTED in general (C20_refuted_forced_attr_order): trying to prove the premise for link elements
+   showed that it is false when the policy allows only one of rel / target on the element and the
+   sanitiser has to add both: the first pass writes href rel target, the second drops the forced
+   attribute that is not allowed, keeps the other in place and appends the dropped one again at
+   the end (href target rel).  The witness is computed on the model and replayed on the
+   implementation (known finding F15).
+   Missing: the premise for elements with URL attributes / forced attributes when the policy
+   allows all or none of the forced attributes (it needs the net/url stability hypothesis U5 and
+   the rel-token lemmas composed through both runs); carried by the idempotence oracle on every
+   generated case of the stated policy class (link grid included), StrictPolicy and UGCPolicy. *)
 From Coq Require Import List NArith Bool.
 Import ListNotations.
-From BM Require Import Bytes Escape Tokenizer Policy Attrs Loop LoopProps EscapeProofs LinkProofs MiscProofs SanRoundTrip PassThrough AttrIdem GenScripts C04Inst PlainInst.
+From BM Require Import Bytes Escape Tokenizer Policy Attrs Loop LoopProps EscapeProofs LinkProofs MiscProofs SanRoundTrip PassThrough AttrIdem Builder GenScripts C04Inst PlainInst.
 
 Theorem C20_escaping_not_applied_twice_partial : forall d,
   render_item (IText (unescape false (render_item (IText d)))) = render_item (IText d).
@@ -64,7 +70,32 @@ Proof.
   rewrite (strict_nothing I), Hp in E. discriminate.
 Qed.
 
+(* the full statement is false of the faithful model: a policy of the stated class (no raw-text
+   element, no comments, no value pattern on a rewritten attribute, no rewriter) and an input on
+   which sanitising twice differs from sanitising once; the oracle is a fixed parse result *)
+Definition c20_interp : interp smatcher unit unit :=
+  {| mmatch := fun _ _ => true; upol := fun _ _ => true; rewrite := fun _ b => b;
+     url_parse := fun b => Some {| u_scheme := B"http"; u_host := B"example.org"; u_opaque := []; u_rawquery := [];
+                                   u_fragment := []; u_string := b |};
+     css_decls := fun _ => None |}.
+Definition c20_policy : policy smatcher unit unit :=
+  build no_default [@OAllowAttrs _ _ _ [B"href"; B"target"] None false (@OnElements _ [B"a"]); @OAllowURLSchemes _ _ _ [B"http"];
+                    @ORequireNoFollowOnLinks _ _ _ true; @OAddTargetBlankToFullyQualifiedLinks _ _ _ true].
+Definition c20_input : bytes := B"<a href=""http://example.org/"">t".
+Theorem C20_refuted_forced_attr_order :
+  plain_policy c20_interp c20_policy /\
+  sanitize_bytes c20_interp c20_policy c20_input = B"<a href=""http://example.org/"" rel=""nofollow noopener"" target=""_blank"">t" /\
+  sanitize_bytes c20_interp c20_policy (sanitize_bytes c20_interp c20_policy c20_input)
+    = B"<a href=""http://example.org/"" target=""_blank"" rel=""nofollow noopener"">t".
+Proof.
+  split; [|split; vm_compute; reflexivity].
+  split; [vm_compute; reflexivity|]. split; [vm_compute; reflexivity|].
+  intros n Hn. unfold is_raw_name in Hn. apply existsb_exists in Hn as (x & Hx & E). apply beqb_eq in E. subst x.
+  cbn in Hx. repeat (destruct Hx as [<-|Hx]; [vm_compute; reflexivity|]). contradiction.
+Qed.
+
 Print Assumptions C20_escaping_not_applied_twice_partial.
+Print Assumptions C20_refuted_forced_attr_order.
 Print Assumptions C20_idempotent_if_attrs_stable.
 Print Assumptions C20_strict.
 Print Assumptions C20_attrs_stable_plain_elements.
